@@ -693,6 +693,11 @@ class PackageGenerator:
             self.inits[r.choice([top, f"{top}.{sub_b}"])].append(f"from {ms.qname} import *")
 
         if self.f("MODULE_REEXPORT"):
+            if r.random() < 0.5:
+                # a module re-exported by a package that is NOT closer to the root than the module itself
+                ms_ = self.new_module(top, "_impl_sideways")
+                self.fill_module(ms_, 1, 1)
+                self.inits[f"{top}.{sub_b}"].append(f"from {top} import _impl_sideways as sideways")
             mm = self.new_module(f"{top}.{sub_a}", "_modre")
             self.fill_module(mm, 1, 2)
             if r.random() < 0.5:
